@@ -79,6 +79,22 @@ class RefGap:
             self.gap -= 1
 
 
+class RefOneDraw:
+    """Reference 3: ONE uniform per arrival decides admission (u < p) and the slot (floor(u/p*k)) - also correct."""
+
+    def __init__(self, k, p):
+        import random
+        self.r, self.k, self.p, self.items = random, k, float(p), []
+
+    def update(self, x):
+        if len(self.items) < self.k:
+            self.items.append(x)
+            return
+        u = self.r.random()
+        if self.p > 0 and u < self.p:
+            self.items[min(self.k - 1, int(u / self.p * self.k))] = x
+
+
 OFFSETS = (0, 1, 3, -1, 5, 7, -3, 9)
 
 
@@ -93,7 +109,7 @@ def approx_policy(base):
     return pol
 
 
-def approx_probs(kind, cfg, base):
+def approx_probs(kind, cfg, base, cap=None):
     """Retention / entry probabilities (floats) by full weighted enumeration on per-draw co-prime grids."""
     k, n, pv = cfg['k'], min(cfg['n'], cfg['k'] + 3), cfg['pv']
     retained, entered = {}, {}
@@ -104,7 +120,7 @@ def approx_probs(kind, cfg, base):
             for t in range(1, n + 1):
                 s.update({'id': t}, FALSY[t % len(FALSY)])
             return tuple(x['id'] for x in list(s.get_data()[0]))
-        s = (RefCoin if kind == 'coin' else RefGap)(k, pv)
+        s = {'coin': RefCoin, 'gap': RefGap, 'one': RefOneDraw}[kind](k, pv)
         for t in range(1, n + 1):
             s.update(t)
         return tuple(s.items)
@@ -113,7 +129,9 @@ def approx_probs(kind, cfg, base):
         w = float(run.weight)
         for t in ids:
             retained[t] = retained.get(t, 0.0) + w
-    st = choice.explore(driver, on_leaf=on_leaf, float_policy=approx_policy(base), weighted=False)
+    st = choice.explore(driver, on_leaf=on_leaf, float_policy=approx_policy(base), weighted=False, max_exec=cap)
+    if st.truncated:
+        return None, st.executions, None, None
     want = {t: float((1 - pv / k) ** (n - k) if t <= k else pv * (1 - pv / k) ** (n - t)) for t in range(1, n + 1)}
     err = max(abs(retained.get(t, 0.0) - want[t]) for t in want)
     return err, st.executions, {t: round(retained.get(t, 0.0), 4) for t in want}, want
@@ -123,16 +141,21 @@ def fallback(cfg, desc):
     """The exact (grid-aligned) comparison failed. A correct implementation may transform its draws continuously (e.g.
     geometric waiting times); then probabilities under ANY finite grid carry a quadrature error. Decide with a tolerance
     calibrated at run time on two correct reference implementations under the same co-prime grids."""
-    base = 9
-    e_impl, n_exec, got, want = approx_probs('impl', cfg, base)
-    e_coin, _, _, _ = approx_probs('coin', cfg, base)
-    e_gap, _, _, _ = approx_probs('gap', cfg, base)
-    tau = max(0.02, 2.5 * max(e_coin, e_gap))
+    for base in (61, 41, 25, 15, 9):       # the finest grid whose tree fits the budget (quadrature error ~ 1/base)
+        e_impl, n_exec, got, want = approx_probs('impl', cfg, base, cap=250000 if base > 9 else None)
+        if e_impl is not None:
+            break
+    refs = {}
+    for kind in ('coin', 'gap', 'one'):
+        e, _, _, _ = approx_probs(kind, cfg, base, cap=2000000)
+        refs[kind] = e if e is not None else 0.0
+    e_coin, e_gap = refs['coin'], refs['gap']
+    tau = max(0.02, 2.5 * max(refs.values()))
     if e_impl > tau:
         return [("C09/retention", f"{desc}: retention probabilities {got} deviate from the law "
                                   f"{ {t: round(v, 4) for t, v in want.items()} } by {e_impl:.4f} > {tau:.4f} (tolerance calibrated on two "
-                                  f"correct reference implementations under the same co-prime grids: coin flip {e_coin:.4f}, "
-                                  f"waiting time {e_gap:.4f}); the grid-aligned exact comparison failed as well", {}, ())], n_exec, tau, e_impl
+                                  f"correct reference implementations under the same co-prime grids of base {base}: coin flip {e_coin:.4f}, "
+                                  f"waiting time {e_gap:.4f}, one draw {refs['one']:.4f}); the grid-aligned exact comparison failed as well", {}, ())], n_exec, tau, e_impl
     return [], n_exec, tau, e_impl
 
 
@@ -240,7 +263,7 @@ def main(rep):
     rep.note(configs=len(cfgs))
     rep.assume("random.random() is uniform on [0,1) and randrange(k) uniform on range(k) (trusted primitives)",
                "if the grid-aligned exact comparison fails, the verdict falls back to a quadrature comparison on co-prime "
-               "grids with a tolerance calibrated on two correct reference implementations (a correct implementation may "
+               "grids with a tolerance calibrated on three correct reference implementations (a correct implementation may "
                "use geometric waiting times instead of a per-arrival threshold test)",
                "the acceptance test is a threshold comparison of one uniform draw with p; thresholds are "
                "resolved to 1/M (M = 4x or 8x the denominator of p)")
